@@ -34,7 +34,7 @@ KMID_MAX = 1e12
 
 def floors(tier):
     return {"updates_judged": 3000, "accepted": 1500, "rejected": 200, "evictions": 300, "dense_compared": 1500,
-            "used_matrices_checked": 300, "restarted_runs": 20, "restarted_runs_with_smaller_memory": 10, "restored_histories_checked": 20, "runs_with_objective_redefined": 60, "filter_calls_judged": 1000, "filter_calls_dropping_points": 300, "__nontrivial__": 30}
+            "used_matrices_checked": 300, "restarted_runs": 20, "restarted_runs_with_smaller_memory": 10, "restored_histories_checked": 20, "runs_with_reused_gradient_buffer": 40, "runs_with_objective_redefined": 60, "filter_calls_judged": 1000, "filter_calls_dropping_points": 300, "__nontrivial__": 30}
 
 
 # ---------------------------------------------------------------------------
@@ -246,7 +246,7 @@ def cases(tier, seed):
         ps = gen.rand_spec(rng, RUN_FAMILIES, nmax=10)
         yield {"kind": "run", "problem": ps, "maxcor": int(rng.integers(1, 8)), "maxls": int(gen.pick(rng, [2, 3, 5, 20])),
                "maxiter": int(rng.integers(8, 40)), "restart_after": int(rng.integers(2, 9)) if i % 3 == 0 else 0,
-               "restart_maxcor_drop": int(rng.integers(0, 4)),
+               "restart_maxcor_drop": int(rng.integers(0, 4)), "reuse_grad_buffer": bool(i % 4 == 1),
                "eps_SY": float(gen.pick(rng, [2.2e-16, 2.2e-16, 1e-3, 1e-2, 0.1]))}
     for i in range(nr // 2):
         ps = gen.rand_spec(rng, ("qp", "qp_quartic"), nmax=8, nmin=2, boxes=("mixed", "boxed", "lower", "none"), starts=("interior", "face", "vertex"), condmax=1e3)
@@ -364,6 +364,9 @@ def run_real(spec, out):
 
     cfg = dict(jac="callable", maxcor=spec["maxcor"], maxls=spec["maxls"], maxiter=spec["maxiter"], ftol=0.0, gtol=1e-9, maxfun=2000,
                eps_SY=spec.get("eps_SY", 2.2e-16))
+    if spec.get("reuse_grad_buffer"):
+        cfg["reuse_grad_buffer"] = True  # the user's gradient fills and returns one preallocated array
+        out.count("runs_with_reused_gradient_buffer")
     with probes.Intercept(M, ["update_lbfgs_matrices", "get_cauchy_point"], frame_vars=("X", "G"), on_event=None) as ic:
         # on_event needs ic in scope: attach after construction
         ic.on_event = on_event
